@@ -351,6 +351,16 @@ impl Check for C01 {
     }
     fn run_index(&self, seed: u64, index: u64, _tier: Tier, ctx: &mut WorkerCtx<Plan>, known: &KnownFindings) {
         let mut rng = Rng::new(mix(seed, "C01", index));
+        if index < gen::timing_sweep_len() {
+            // systematic part: every placement of small scenarios on the millisecond grid
+            let plan = gen::timing_sweep_plan(index);
+            ctx.about_to_eval(&plan);
+            let (ev, out) = eval_with(&plan, oracle::check_c01, nt_c01);
+            bump_probes(ctx, &plan, &out);
+            ctx.counters.bump("timing_sweep_plans");
+            ctx.record(&plan, ev, known);
+            return;
+        }
         let mut plan = fault_free_plan(&mut rng, &Workload::full(), 6, false, 3);
         // the application may drop the event receiver at any time
         if rng.chance(1, 8) {
@@ -388,7 +398,13 @@ impl Check for C01 {
         trace_plan(case, oracle::check_c01)
     }
     fn rule(&self) -> String {
-        "one evaluation = one seeded plan (1-4 scripted callers x up to 8 ops: requests, typed \
+        "run indexes below 11 754 are a SYSTEMATIC timing sweep that does not depend on the seed: \
+         every placement on the 1 ms grid of (F1) one request at 0..10 ms and a two-subsystem change \
+         at 0..10 ms, (F2) a second request 95..105 ms after the first with a change at 0..8 or \
+         100..108 ms, (F3) two callers (request, failing list) at 0..6 ms each and a change at \
+         0..6 ms, (F4) a request cancelled after 0..3 ms followed by another, a second caller at \
+         0..8 ms and a change at 0..6 ms - each x 2-3 network variants x 2 select! seeds. Above \
+         that: one evaluation = one seeded plan (1-4 scripted callers x up to 8 ops: requests, typed \
          requests, lists with optional failing index, bursts, cancellations, think times biased to \
          0/1/99/100/101/150/500 ms; 0-6 server change events, a third of the plans re-targeted to \
          +-1 ms of actual enqueue/reply instants; reply shapes up to ~64 KiB; random network policy \
@@ -480,6 +496,15 @@ impl Check for C04 {
     }
     fn run_index(&self, seed: u64, index: u64, _tier: Tier, ctx: &mut WorkerCtx<Plan>, known: &KnownFindings) {
         let mut rng = Rng::new(mix(seed, "C04", index));
+        if index < gen::timing_sweep_len() {
+            let plan = gen::timing_sweep_plan(index);
+            ctx.about_to_eval(&plan);
+            let (ev, out) = eval_with(&plan, oracle::check_c04, nt_c04);
+            bump_probes(ctx, &plan, &out);
+            ctx.counters.bump("timing_sweep_plans");
+            ctx.record(&plan, ev, known);
+            return;
+        }
         let mut plan = gen_c04(&mut rng);
         // a quarter of the plans carry one transport fault: what was completely received before
         // it must still be delivered
@@ -504,7 +529,8 @@ impl Check for C04 {
         trace_plan(case, oracle::check_c04)
     }
     fn rule(&self) -> String {
-        "one evaluation = one seeded notification-heavy plan (change events of 1-4 subsystems from \
+        "run indexes below 11 754 are the systematic timing sweep described under C01 (same plans, \
+         judged by this property's oracle); above that: one evaluation = one seeded notification-heavy plan (change events of 1-4 subsystems from \
          the 14 protocol names, unknown names and case variants, repeats; idle replies cut after \
          every LF / before the final OK / bytewise with 0-3 ms between segments so that enqueues \
          fall between segments; half of the plans re-targeted to actual instants); oracle: the \
@@ -549,6 +575,15 @@ impl Check for C05 {
     }
     fn run_index(&self, seed: u64, index: u64, _tier: Tier, ctx: &mut WorkerCtx<Plan>, known: &KnownFindings) {
         let mut rng = Rng::new(mix(seed, "C05", index));
+        if index < gen::timing_sweep_len() {
+            let plan = gen::timing_sweep_plan(index);
+            ctx.about_to_eval(&plan);
+            let (ev, out) = eval_with(&plan, oracle::check_c05, nt_c05);
+            bump_probes(ctx, &plan, &out);
+            ctx.counters.bump("timing_sweep_plans");
+            ctx.record(&plan, ev, known);
+            return;
+        }
         let mut plan = if rng.chance(1, 2) {
             fault_free_plan(&mut rng, &Workload::full(), 6, true, 3)
         } else {
@@ -581,7 +616,8 @@ impl Check for C05 {
         trace_plan(case, oracle::check_c05)
     }
     fn rule(&self) -> String {
-        "one evaluation = one seeded fault-free plan (C01 and C04 style workloads plus short writes \
+        "run indexes below 11 754 are the systematic timing sweep described under C01 (same plans, \
+         judged by this property's oracle); above that: one evaluation = one seeded fault-free plan (C01 and C04 style workloads plus short writes \
          that split lines and write back-pressure); the simulated server and transport judge every \
          client write inline: J1 first command is idle and nothing precedes the greeting, J2 nothing \
          but noidle reaches a server waiting in idle, J3 no obliging line is started before every \
